@@ -424,6 +424,13 @@ func splitPeriod(mpd *m.MPD, a *asset, cfg *ResponseConfig, wTimes wrapTimes) er
 	if cfg.liveMPDType() != segmentNumber {
 		// The timeline may start with a segment that begins before the time-shift window and (with an
 		// availabilityTimeOffset) end with one that begins after now: every listed segment needs its period.
+		// A listed segment begins less than one period before the window and less than the offset after now,
+		// which bounds the range whatever the timeline says.
+		minStartPeriodNr := startPeriodNr - 1
+		maxEndPeriodNr := endPeriodNr
+		if ato := cfg.getAvailabilityTimeOffsetS(); ato > 0 && !math.IsInf(ato, 1) {
+			maxEndPeriodNr = (wTimes.nowMS + int(math.Round(ato*1000)) - astMS) / (periodDur * 1000)
+		}
 		for _, as := range inPeriod.AdaptationSets {
 			if as.SegmentTemplate == nil || as.SegmentTemplate.SegmentTimeline == nil {
 				continue
@@ -433,10 +440,10 @@ func splitPeriod(mpd *m.MPD, a *asset, cfg *ResponseConfig, wTimes wrapTimes) er
 				continue
 			}
 			periodTicks := uint64(periodDur) * uint64(as.SegmentTemplate.GetTimescale())
-			if pNr := int(first / periodTicks); pNr < startPeriodNr {
+			if pNr := int(first / periodTicks); pNr < startPeriodNr && pNr >= minStartPeriodNr {
 				startPeriodNr = pNr
 			}
-			if pNr := int(last / periodTicks); pNr > endPeriodNr {
+			if pNr := int(last / periodTicks); pNr > endPeriodNr && pNr <= maxEndPeriodNr {
 				endPeriodNr = pNr
 			}
 		}
